@@ -614,6 +614,17 @@ Proof.
     intros ty d1' d2' x y X Y. eapply IH; [exact O1 | exact O2 | exact X | exact Y].
 Qed.
 
+Theorem readings_well_formed_and_compatible : forall k1 k2 T1 T2 ty1 ty2 d1 d2 t1 t2,
+  tymap_ok T1 = true -> tymap_ok T2 = true ->
+  read_struct k1 T1 ty1 d1 = Some t1 -> read_struct k2 T2 ty2 d2 = Some t2 ->
+  wf t1 /\ wf t2 /\ compat t1 t2.
+Proof.
+  intros k1 k2 T1 T2 ty1 ty2 d1 d2 t1 t2 O1 O2 E1 E2. split; [|split].
+  - eapply read_struct_wf; exact E1.
+  - eapply read_struct_wf; exact E2.
+  - exact (read_struct_compat _ _ _ _ _ _ _ _ _ _ O1 O2 E1 E2).
+Qed.
+
 (* ------------------------------------------------------------------ HashStruct, TypedDataAndHash, the rendering *)
 
 (* the typed reading of dynamic data: what HashStruct hashes *)
